@@ -1,6 +1,6 @@
 (* C02 correspondence: what the Go harness (harness/rest/verif_c02_test.go) observed on the real REST / BLIP
    surfaces and on the real auth.User objects is re-evaluated here on the model with vm_compute. *)
-From SG Require Export Base.Prelude Base.Bytes C02.Auth C02.ReadDecision.
+From SG Require Export Base.Prelude Base.Bytes C02.Auth C02.ReadDecision C02.Backup.
 Open Scope N_scope.
 
 (* what a response shows for one (revision, request): status class, whether the revision's own content
@@ -65,7 +65,11 @@ Inductive case :=
 | CSeeRole (r : role) (cs : list N) (obs : bool)                     (* role.AuthorizeAnyCollectionChannel == nil *)
 | CRead (named : bool) (u : user) (rv : revision) (q : request) (s : surface) (obs : wire)
 | CAllDocs (named nwe : bool) (u : user) (rv : revision) (f : adflags) (obs : rowobs)
-| CGate (named : bool) (u : user) (ops : list pullop) (obs : list (option bool)).
+| CGate (named : bool) (u : user) (ops : list pullop) (obs : list (option bool))
+(* channels the revision cache reports for a superseded revision after a cold load from its backup *)
+| CBackup (winner_chans parent_chans : list N) (parent_is_winner : bool) (obs : list N)
+(* attachment names on the document's current revision right after a write *)
+| CStamp (winner_atts new_atts : list N) (new_wins : bool) (obs : list N).
 
 Definition check (c : case) : bool :=
   match c with
@@ -75,6 +79,8 @@ Definition check (c : case) : bool :=
   | CAllDocs named nwe u rv f obs => rowobs_eqb (row_view (alldocs_row named nwe u rv f)) obs
   | CGate named u ops obs =>
       list_eqb (option_eqb Bool.eqb) (snd (gate_run named u conn0 ops)) obs
+  | CBackup wc pc piw obs => set_eqb (backup_chans wc pc piw) obs
+  | CStamp wa na nw obs => set_eqb (stamped_atts wa na nw) obs
   end.
 
 Definition mismatches (cs : list case) : list N := failing check cs.
